@@ -614,6 +614,51 @@ static void runExcCase(long idx, Spec s, int thrower, std::vector<std::string> c
   long usableBad = 0;
   bool secondOk = true;
   J obs1;
+  bool deferLeak = false;
+  long hi = 0;
+  auto judgeLeak = [&]() {
+      if (leaked != 0) {
+        long otherLeak = 0;
+        for (long t = 0; t < hi; ++t) {
+          if (g_cnt[0][t].load(std::memory_order_relaxed) == 0) continue;
+          if (throwsAt(0, t)) continue; // the generator threw instead of producing
+          if (g_dead[t].load(std::memory_order_relaxed) != 0) continue;
+          int rch = 0;
+          for (int k = 1; k < ns; ++k) {
+            if (g_cnt[k][t].load(std::memory_order_relaxed)) rch = k;
+          }
+          int pend = rch + 1;
+          if (pend >= ns || (rch > 0 && filteredAt(rch, t)) || throwsAt(rch, t)) {
+            ++otherLeak;
+          } else {
+            ++leakedAtStage[pend];
+          }
+        }
+        std::vector<long> las(leakedAtStage, leakedAtStage + ns);
+        J d;
+        d.kv("live", leaked).arr("pendingAtStage", las).kv("unclassified", otherLeak).kv("obs", obs1).kv("spec", s.json());
+        bool reported = false;
+        if (otherLeak || s.pool == 0) {
+          vrt::violation("item payloads still alive after pipeline() rethrew (item not waiting for any stage, or zero-thread pool)", d, "leak-other");
+          reported = true;
+        }
+        for (int k = 1; k < ns && !(s.pool == 0); ++k) {
+          if (!leakedAtStage[k]) continue;
+          long b = s.bound(k);
+          if (b == 0) {
+            vrt::violation("item payloads waiting for an unlimited stage still alive after pipeline() rethrew", d, "leak-other");
+          } else if (k == 1 && leakedAtStage[k] > b) {
+            vrt::violation("queued items of the first limited stage were discarded without being destroyed (more than its limit can have been dispatched)", d, "leak-queued");
+          } else if (k == 1) {
+            vrt::violation("items dispatched to the task set for a limited stage and skipped after the exception are never destroyed", d, "leak-dispatched");
+          } else {
+            vrt::violation("items waiting for a limited stage (dispatched-and-skipped, or enqueued after its discard pass) are never destroyed", d, "leak-downstream");
+          }
+          reported = true;
+        }
+        if (!reported) vrt::violation("item payloads still alive after pipeline() rethrew", d, "leak-other");
+      }
+  };
   {
     dispenso::ThreadPool pool(static_cast<size_t>(s.pool));
     BgLoad bg;
@@ -673,7 +718,7 @@ static void runExcCase(long idx, Spec s, int thrower, std::vector<std::string> c
       // no (tag, stage) twice; every stage still saw its predecessor's output
       long dup = 0, dupTag = -1;
       int dupStage = -1;
-      long hi = rr.producedAtReturn;
+      hi = rr.producedAtReturn;
       for (long t = 0; t < hi; ++t) {
         for (int k = 0; k < ns; ++k) {
           if (g_cnt[k][t].load(std::memory_order_relaxed) > 1) {
@@ -696,48 +741,11 @@ static void runExcCase(long idx, Spec s, int thrower, std::vector<std::string> c
       if (g.genNotStopped.load()) {
         vrt::violation("generator kept being called long after a stage threw", J().kv("postThrowCalls", g.postThrowGen.load()).kv("cap", kPostThrowGenCap).kv("obs", obs1).kv("spec", s.json()), "generator-not-stopped");
       }
-      // memory: every payload that was created must be gone once pipeline() has returned
-      if (leaked != 0) {
-        long otherLeak = 0;
-        for (long t = 0; t < hi; ++t) {
-          if (g_cnt[0][t].load(std::memory_order_relaxed) == 0) continue;
-          if (throwsAt(0, t)) continue; // the generator threw instead of producing
-          if (g_dead[t].load(std::memory_order_relaxed) != 0) continue;
-          int rch = 0;
-          for (int k = 1; k < ns; ++k) {
-            if (g_cnt[k][t].load(std::memory_order_relaxed)) rch = k;
-          }
-          int pend = rch + 1;
-          if (pend >= ns || (rch > 0 && filteredAt(rch, t)) || throwsAt(rch, t)) {
-            ++otherLeak;
-          } else {
-            ++leakedAtStage[pend];
-          }
-        }
-        std::vector<long> las(leakedAtStage, leakedAtStage + ns);
-        J d;
-        d.kv("live", leaked).arr("pendingAtStage", las).kv("unclassified", otherLeak).kv("obs", obs1).kv("spec", s.json());
-        bool reported = false;
-        if (otherLeak || s.pool == 0) {
-          vrt::violation("item payloads still alive after pipeline() rethrew (item not waiting for any stage, or zero-thread pool)", d, "leak-other");
-          reported = true;
-        }
-        for (int k = 1; k < ns && !(s.pool == 0); ++k) {
-          if (!leakedAtStage[k]) continue;
-          long b = s.bound(k);
-          if (b == 0) {
-            vrt::violation("item payloads waiting for an unlimited stage still alive after pipeline() rethrew", d, "leak-other");
-          } else if (k == 1 && leakedAtStage[k] > b) {
-            vrt::violation("queued items of the first limited stage were discarded without being destroyed (more than its limit can have been dispatched)", d, "leak-queued");
-          } else if (k == 1) {
-            vrt::violation("items dispatched to the task set for a limited stage and skipped after the exception are never destroyed", d, "leak-dispatched");
-          } else {
-            vrt::violation("items waiting for a limited stage (dispatched-and-skipped, or enqueued after its discard pass) are never destroyed", d, "leak-downstream");
-          }
-          reported = true;
-        }
-        if (!reported) vrt::violation("item payloads still alive after pipeline() rethrew", d, "leak-other");
-      }
+      // memory: every payload that was created must be gone once pipeline() has returned. The task-set
+      // wrapper of a skipped task decrements the set's counter before the worker destroys the functor
+      // (and the item it holds), so pipeline() may return a moment before that destructor has run:
+      // a non-zero live count here is only judged after the pool has been joined (below).
+      deferLeak = thrown != 0 && leaked != 0;
     }
     // ---- the pool stays usable: a task set, then a second pipeline, on the same pool
     {
@@ -768,7 +776,7 @@ static void runExcCase(long idx, Spec s, int thrower, std::vector<std::string> c
     }
     // the generator (or any stage) of the first pipeline must not have been called after it returned
     if (thrown) reportLate(s, "C29", "");
-    {
+    if (!deferLeak) { // (the second pipeline would reset the counters the deferred leak verdict needs)
       Spec s2 = s;
       s2.unbounded = false;
       s2.n = 24;
@@ -789,6 +797,12 @@ static void runExcCase(long idx, Spec s, int thrower, std::vector<std::string> c
     vrt::watchdogDisarm();
     bg.finish();
     perturbOff();
+  }
+  if (deferLeak) {
+    // pool joined: every functor the pool still held has been destroyed by now
+    leaked = g.payloadMade.load() - g.payloadDead.load();
+    if (leaked != 0) judgeLeak();
+    else cls.push_back("late-destroy");
   }
   if (usableBad) vrt::violation("task sets on the pool did not run all their tasks after a pipeline exception", J().kv("spec", s.json()), "pool-unusable");
   (void)secondOk;
